@@ -378,6 +378,10 @@ func (c *Ctx) GuardOpt(rule string, fn *ssa.Function, eff Effect, opt GuardOpts,
 		if sites, via := helperEffectSites(fn, eff); len(sites) > 0 {
 			effs = sites
 			opt.Note += fmt.Sprintf(" (effect found in helper %s; its call sites are guarded here)", strings.Join(via, ", "))
+		} else if sites, h := inlinedEffectSites(c.P, fn, eff); len(sites) > 0 {
+			// …or the helper named by the rule was inlined here
+			effs = sites
+			opt.Note += fmt.Sprintf(" (%s is not called here but every effect of its body is present: treated as inlined)", h)
 		}
 	}
 	if len(effs) == 0 {
